@@ -60,6 +60,14 @@ func (n *numRun) beginScenario() {
 	n.first = nil
 }
 
+// maybeConform runs the conformance pass (model git vs real git, CLI vs oracle)
+// on every stride-th scenario.
+func (n *numRun) maybeConform(sc *gen.Scenario, idx int64, stride int64) {
+	if stride > 0 && idx%stride == 0 {
+		conform(n.sh, n.prop, n.owned, sc)
+	}
+}
+
 func (n *numRun) end() {
 	n.sh.C.States += int64(len(n.states))
 	n.states = map[uint64]struct{}{}
@@ -189,6 +197,7 @@ func c03Worker(sh *explore.Shard) {
 				sc := &gen.Scenario{Repo: &rr, Desc: fmt.Sprintf("dag n=%d masks=%v roots=%b", nn, masks, mask)}
 				l := defaultListing(sc)
 				n.beginScenario()
+				n.maybeConform(sc, idx, 23)
 				cnt, _ := gen.Orders(sc.Repo, l, gen.OrderSpace{Commits: true}, func(order []mrepo.ID) bool {
 					n.one(sc, order, sizes.NameStyleNone, true, nil)
 					return true
@@ -225,6 +234,7 @@ func c03Worker(sh *explore.Shard) {
 				sc := &gen.Scenario{Repo: &rr, Desc: fmt.Sprintf("tags m=%d targets=%v roots=%b", mm, targets, mask)}
 				l := defaultListing(sc)
 				n.beginScenario()
+				n.maybeConform(sc, idx, 23)
 				cnt, _ := gen.Orders(sc.Repo, l, gen.OrderSpace{Tags: true}, func(order []mrepo.ID) bool {
 					n.one(sc, order, sizes.NameStyleNone, true, nil)
 					return true
@@ -287,6 +297,7 @@ func c04Worker(sh *explore.Shard) {
 			sc.Desc = fmt.Sprintf("treedag k=%d #%d", kk, idx)
 			l := defaultListing(sc)
 			n.beginScenario()
+			n.maybeConform(sc, idx, 67)
 			cnt, _ := gen.Orders(sc.Repo, l, gen.OrderSpace{Trees: true}, func(order []mrepo.ID) bool {
 				n.one(sc, order, sizes.NameStyleNone, true, nil)
 				return true
@@ -436,6 +447,9 @@ func c01Worker(sh *explore.Shard) {
 				sc := &gen.Scenario{Repo: r, WalkRefs: walk, Explicit: ex, Desc: fmt.Sprintf("%s refs=%b root=%d", desc, mask, ei)}
 				l := defaultListing(sc)
 				n.one(sc, l.IDs, sizes.NameStyleNone, false, nil)
+				if (int64(mask)*7+int64(ei))%41 == idx%41 {
+					n.maybeConform(sc, idx, 11)
+				}
 				// one deviation from git's order: everything non-commit reversed
 				rev := reverseNonCommits(r, l)
 				n.one(sc, rev, sizes.NameStyleNone, false, nil)
@@ -537,6 +551,7 @@ func c02Worker(sh *explore.Shard) {
 				sc := &gen.Scenario{Repo: r, Desc: fmt.Sprintf("commits n=%d masks=%v lens#%d", nn, masks, v)}
 				l := defaultListing(sc)
 				n.beginScenario()
+				n.maybeConform(sc, idx, 29)
 				cnt, _ := gen.Orders(r, l, gen.OrderSpace{Commits: true}, func(order []mrepo.ID) bool {
 					n.one(sc, order, sizes.NameStyleNone, true, nil)
 					return true
@@ -614,6 +629,7 @@ func c02Worker(sh *explore.Shard) {
 			sc := &gen.Scenario{Repo: r, Desc: fmt.Sprintf("blobs v=%d layout=%d", v, layout)}
 			l := defaultListing(sc)
 			n.beginScenario()
+			n.maybeConform(sc, idx, 5)
 			cnt, _ := gen.Orders(r, l, gen.OrderSpace{Trees: true, Blobs: true, Max: 720}, func(order []mrepo.ID) bool {
 				n.one(sc, order, sizes.NameStyleNone, true, nil)
 				return true
@@ -661,6 +677,7 @@ func c09Worker(sh *explore.Shard) {
 		sc := &gen.Scenario{Repo: r, Explicit: [][2]string{{"blobC", string(special["blobC"])}}, Desc: desc}
 		l := defaultListing(sc)
 		n.beginScenario()
+		n.maybeConform(sc, idx, 7)
 		max := 2000
 		if sh.Tier == "thorough" {
 			max = 50000
